@@ -1,0 +1,107 @@
+//go:build verif
+
+// Round 5, area J: the HTTP client helpers GETV1 / POSTV1 / httpsEndpoint (C18 C16 C11), checked by nsqvc. Comment-only file.
+// The library calls (http.NewRequest, Header.Add, Client.Do, io.ReadAll, Body.Close, json.Unmarshal, fmt.Errorf, url.Parse, URL.String,
+// strings.HasPrefix) are assumed contracts scoped to this package: lib/trusted/r5J.spec. They record every call in the r5J* ghosts, so the
+// clauses below are statements about the sequence of library calls one GETV1 / POSTV1 makes.
+
+package http_api
+
+// The https endpoint derived from endpoint e for port p: e's parts with the scheme "https" and the host "hostpart(e):p".
+//@ fn r5JHttpsOf(e string, p int) string := r5JURLText("https", r4CHostPort(hostOf(r5JURLHost(e)), r4CItoa(p)), r5JURLStrPart(e, 1), r5JURLUser(e), r5JURLStrPart(e, 2), r5JURLStrPart(e, 3), r5JURLBoolPart(e, 1), r5JURLBoolPart(e, 2), r5JURLStrPart(e, 4), r5JURLStrPart(e, 5), r5JURLStrPart(e, 6))
+
+// httpsEndpoint: the same URL with scheme https and the port the 403 body announced; "" with the error otherwise.
+//@ func httpsEndpoint(endpoint string, body []byte) (string, error)
+//@   props C18 C16 C11
+//@   nochan
+//@   ensures[https-scheme] result1 == nil ==> r5JHasPrefix(result0, "https")
+//@   ensures[same-url-new-scheme-and-port] result1 == nil ==> exists p int :: {r4CItoa(p)} result0 == r5JHttpsOf(endpoint, p)
+//@   ensures[error-no-endpoint] result1 != nil ==> result0 == ""
+//   the call records of the round trip (free ghosts of r5J.spec) are untouched: GETV1 / POSTV1 rely on them across this call
+//@   keeps r5JDoCalls, r5JNewReqs, r5JDoOKs, r5JDoClient, r5JDoReq, r5JDoPrevReq, r5JDoErr, r5JDoStatus, r5JDoPrevStatus, r5JDoStatusText, r5JDoBody, r5JDoAccept, r5JDoPrevAccept, r5JDoCTJson, r5JDoHdrAdds, r5JAcceptSet, r5JCTJsonSet, r5JHdrAdds, r5JCTAdds, r5JReadAlls, r5JReadSrc, r5JReadBytes, r5JReadErr, r5JCloses, r5JClosed, r5JUnms, r5JUnmData, r5JUnmErr, r5JErrfs, r5JErrfErr, r5JErrfFmt, r5JErrfArg0, r5JErrfArg1, r5JBufs, r5JBufBytes, r5JBuf, gMarshals, gMarshalArg, gMarshalOut, gMarshalErr
+//@   modifies cfgRemoteAddr
+
+// What one attempt sends: a request built by http.NewRequest for exactly this method and URL, with the Accept header added before it was sent.
+//@ pred r5JSent(req *http.Request, accept bool, method string, url string) := req != nil && r5JReqMethod(req) == method && r5JReqURL(req) == url && accept
+
+// GETV1.
+// [at-most-one-retry]            at most two requests are built and sent; [request-as-given] the first (or only) one is a GET of exactly the endpoint given,
+// without body, with the Accept header, on this client's http.Client; [retry-only-after-403-to-https] a second request is sent only when the first
+// was answered 403 and the endpoint given is not https; it is a GET of the https endpoint derived from the one given (same URL, scheme https, some port);
+// [transport-error-as-is] the error of a failed Do is the result; [read-error-as-is]; [not-200-is-an-error]; [status-in-error-text] a status other than
+// 200 (and other than the retried 403) yields the error formatted from "got response %s %q" with the status text and the body read;
+// [success-means-200-decoded] nil only after a 200 whose body was read to the end without error and decoded without error;
+// [decoded-only-on-200] json.Unmarshal is called at most once, only on the body of a 200 answer; [every-body-read-and-closed] one ReadAll and one Close per
+// response received, on that response's body.
+//@ func (c *Client) GETV1(endpoint string, v interface{}) error
+//@   props C18 C16 C11
+//@   requires[client-built] c != nil && c.c != nil
+//@   nochan
+//@   ensures[at-most-one-retry] r5JDoCalls <= old(r5JDoCalls) + 2 && r5JNewReqs <= old(r5JNewReqs) + 2 && r5JDoCalls - old(r5JDoCalls) <= r5JNewReqs - old(r5JNewReqs)
+//@   ensures[request-or-error] r5JDoCalls == old(r5JDoCalls) ==> result != nil && r5JUnms == old(r5JUnms)
+//@   ensures[request-as-given] r5JDoCalls == old(r5JDoCalls) + 1 ==> r5JSent(r5JDoReq, r5JDoAccept, "GET", endpoint) && r5JReqBody(r5JDoReq) == nil && r5JDoClient == old(c.c)
+//@   ensures[retry-only-after-403-to-https] r5JDoCalls == old(r5JDoCalls) + 2 ==> r5JSent(r5JDoPrevReq, r5JDoPrevAccept, "GET", endpoint) && r5JReqBody(r5JDoPrevReq) == nil &&
+//@        r5JDoPrevStatus == 403 && !r5JHasPrefix(endpoint, "https") && r5JDoClient == old(c.c) && r5JDoAccept && r5JDoReq != nil && r5JReqMethod(r5JDoReq) == "GET" && r5JReqBody(r5JDoReq) == nil &&
+//@        r5JHasPrefix(r5JReqURL(r5JDoReq), "https") && (exists p int :: {r4CItoa(p)} r5JReqURL(r5JDoReq) == r5JHttpsOf(endpoint, p))
+//@   ensures[transport-error-as-is] r5JDoCalls > old(r5JDoCalls) && r5JDoErr != nil ==> result == r5JDoErr && r5JUnms == old(r5JUnms)
+//@   ensures[read-error-as-is] r5JDoCalls > old(r5JDoCalls) && r5JDoErr == nil && r5JReadErr != nil ==> result == r5JReadErr && r5JUnms == old(r5JUnms)
+//@   ensures[not-200-is-an-error] r5JDoCalls > old(r5JDoCalls) && r5JDoErr == nil && r5JDoStatus != 200 ==> result != nil && r5JUnms == old(r5JUnms)
+//@   ensures[status-in-error-text] r5JDoCalls > old(r5JDoCalls) && r5JDoErr == nil && r5JReadErr == nil && r5JDoStatus != 200 && (r5JDoStatus != 403 || r5JHasPrefix(r5JReqURL(r5JDoReq), "https")) ==>
+//@        result == r5JErrfErr && r5JErrfs == old(r5JErrfs) + 1 && r5JErrfFmt == "got response %s %q" &&
+//@        dyntype(r5JErrfArg0) == typetag("string") && unbox(r5JErrfArg0, "string") == r5JDoStatusText &&
+//@        dyntype(r5JErrfArg1) == typetag("[]byte") && unbox(r5JErrfArg1, "[]byte") == r5JReadBytes
+//@   ensures[success-means-200-decoded] result == nil ==> r5JDoCalls > old(r5JDoCalls) && r5JDoErr == nil && r5JDoStatus == 200 && r5JReadErr == nil &&
+//@        r5JUnms == old(r5JUnms) + 1 && r5JUnmErr == nil && r5JUnmData == r5JReadBytes
+//@   ensures[decoded-only-on-200] r5JUnms <= old(r5JUnms) + 1 && (r5JUnms == old(r5JUnms) + 1 ==> r5JDoErr == nil && r5JDoStatus == 200 && r5JReadErr == nil && r5JUnmData == r5JReadBytes && result == r5JUnmErr)
+//@   ensures[every-body-read-and-closed] r5JReadAlls - old(r5JReadAlls) == r5JDoOKs - old(r5JDoOKs) && r5JCloses - old(r5JCloses) == r5JDoOKs - old(r5JDoOKs) &&
+//@        (r5JDoCalls > old(r5JDoCalls) && r5JDoErr == nil ==> r5JReadSrc == r5JDoBody && r5JClosed == r5JDoBody)
+//@   loop 0
+//@     invariant[attempts] (r5JDoCalls == old(r5JDoCalls) && r5JNewReqs == old(r5JNewReqs) && endpoint == old(endpoint)) ||
+//@          (r5JDoCalls == old(r5JDoCalls) + 1 && r5JNewReqs == old(r5JNewReqs) + 1 && r5JSent(r5JDoReq, r5JDoAccept, "GET", old(endpoint)) && r5JReqBody(r5JDoReq) == nil && r5JDoClient == c.c &&
+//@           r5JDoErr == nil && r5JReadErr == nil && r5JReadSrc == r5JDoBody && r5JClosed == r5JDoBody && r5JDoStatus == 403 && !r5JHasPrefix(old(endpoint), "https") && r5JHasPrefix(endpoint, "https") && (exists p int :: {r4CItoa(p)} endpoint == r5JHttpsOf(old(endpoint), p)))
+//@     invariant[nothing-decoded-yet] r5JUnms == old(r5JUnms) && r5JErrfs == old(r5JErrfs)
+//@     invariant[bodies-so-far] r5JReadAlls - old(r5JReadAlls) == r5JDoOKs - old(r5JDoOKs) && r5JCloses - old(r5JCloses) == r5JDoOKs - old(r5JDoOKs) && r5JDoOKs - old(r5JDoOKs) == r5JDoCalls - old(r5JDoCalls)
+//@     invariant[client-kept] c.c == old(c.c)
+
+// POSTV1: as GETV1 with method POST. The body: none when data is nil; otherwise a bytes.Buffer over the bytes json.Marshal made of data (gMarshal*: the
+// record of the json.Marshal extern, gmeta.spec), and then - only then - Content-Type: application/json is added before sending. A marshal failure is an
+// error and nothing is sent in that attempt. The answer is decoded only when v is not nil.
+//@ pred r5JPostBody(req *http.Request, ct bool, data url.Values) := (data == nil ==> r5JReqBody(req) == nil) &&
+//@        (data != nil ==> ct && dyntype(r5JReqBody(req)) == typetag("*bytes.Buffer") && unbox(r5JReqBody(req), "*bytes.Buffer") != nil && r5JBufMarshalOK(unbox(r5JReqBody(req), "*bytes.Buffer")) &&
+//@             dyntype(r5JBufDoc(unbox(r5JReqBody(req), "*bytes.Buffer"))) == typetag("url.Values") && unbox(r5JBufDoc(unbox(r5JReqBody(req), "*bytes.Buffer")), "url.Values") == data)
+//@ func (c *Client) POSTV1(endpoint string, data url.Values, v interface{}) error
+//@   props C18 C16 C11
+//@   requires[client-built] c != nil && c.c != nil
+//@   nochan
+//@   ensures[at-most-one-retry] r5JDoCalls <= old(r5JDoCalls) + 2 && r5JNewReqs <= old(r5JNewReqs) + 2 && r5JDoCalls - old(r5JDoCalls) <= r5JNewReqs - old(r5JNewReqs)
+//@   ensures[request-or-error] r5JDoCalls == old(r5JDoCalls) ==> result != nil && r5JUnms == old(r5JUnms)
+//@   ensures[request-as-given] r5JDoCalls == old(r5JDoCalls) + 1 ==> r5JSent(r5JDoReq, r5JDoAccept, "POST", endpoint) && r5JDoClient == old(c.c)
+//@   ensures[body-as-given] r5JDoCalls == old(r5JDoCalls) + 1 ==> r5JPostBody(r5JDoReq, r5JDoCTJson, data)
+//@   ensures[retry-only-after-403-to-https] r5JDoCalls == old(r5JDoCalls) + 2 ==> r5JSent(r5JDoPrevReq, r5JDoPrevAccept, "POST", endpoint) &&
+//@        r5JDoPrevStatus == 403 && !r5JHasPrefix(endpoint, "https") && r5JDoClient == old(c.c) && r5JDoAccept && r5JDoReq != nil && r5JReqMethod(r5JDoReq) == "POST" &&
+//@        r5JHasPrefix(r5JReqURL(r5JDoReq), "https") && (exists p int :: {r4CItoa(p)} r5JReqURL(r5JDoReq) == r5JHttpsOf(endpoint, p))
+//@   ensures[no-content-type-without-body] data == nil ==> r5JCTAdds == old(r5JCTAdds)
+//@   ensures[retry-body-as-given] r5JDoCalls == old(r5JDoCalls) + 2 ==> r5JPostBody(r5JDoReq, r5JDoCTJson, data)
+//@   ensures[transport-error-as-is] r5JDoCalls > old(r5JDoCalls) && r5JDoErr != nil ==> result == r5JDoErr && r5JUnms == old(r5JUnms)
+//@   ensures[read-error-as-is] r5JDoCalls > old(r5JDoCalls) && r5JDoErr == nil && r5JReadErr != nil ==> result == r5JReadErr && r5JUnms == old(r5JUnms)
+//@   ensures[not-200-is-an-error] r5JDoCalls > old(r5JDoCalls) && r5JDoErr == nil && r5JDoStatus != 200 ==> result != nil && r5JUnms == old(r5JUnms)
+//@   ensures[status-in-error-text] r5JDoCalls > old(r5JDoCalls) && r5JDoErr == nil && r5JReadErr == nil && r5JDoStatus != 200 && (r5JDoStatus != 403 || r5JHasPrefix(r5JReqURL(r5JDoReq), "https")) ==>
+//@        result == r5JErrfErr && r5JErrfs == old(r5JErrfs) + 1 && r5JErrfFmt == "got response %s %q" &&
+//@        dyntype(r5JErrfArg0) == typetag("string") && unbox(r5JErrfArg0, "string") == r5JDoStatusText &&
+//@        dyntype(r5JErrfArg1) == typetag("[]byte") && unbox(r5JErrfArg1, "[]byte") == r5JReadBytes
+//@   ensures[success-means-200-decoded-if-asked] result == nil ==> r5JDoCalls > old(r5JDoCalls) && r5JDoErr == nil && r5JDoStatus == 200 && r5JReadErr == nil &&
+//@        (v != nil ==> r5JUnms == old(r5JUnms) + 1 && r5JUnmErr == nil && r5JUnmData == r5JReadBytes)
+//@   ensures[decoded-only-on-200-and-if-asked] r5JUnms <= old(r5JUnms) + 1 && (r5JUnms == old(r5JUnms) + 1 ==> v != nil && r5JDoErr == nil && r5JDoStatus == 200 && r5JReadErr == nil && r5JUnmData == r5JReadBytes && result == r5JUnmErr)
+//@   ensures[every-body-read-and-closed] r5JReadAlls - old(r5JReadAlls) == r5JDoOKs - old(r5JDoOKs) && r5JCloses - old(r5JCloses) == r5JDoOKs - old(r5JDoOKs) &&
+//@        (r5JDoCalls > old(r5JDoCalls) && r5JDoErr == nil ==> r5JReadSrc == r5JDoBody && r5JClosed == r5JDoBody)
+//@   ensures[marshal-failure-sends-nothing] r5JDoCalls - old(r5JDoCalls) == r5JNewReqs - old(r5JNewReqs) && r5JNewReqs - old(r5JNewReqs) < gMarshals - old(gMarshals) && data != nil && gMarshalErr != nil ==> result != nil
+//@   loop 0
+//@     invariant[attempts] (r5JDoCalls == old(r5JDoCalls) && r5JNewReqs == old(r5JNewReqs) && endpoint == old(endpoint)) ||
+//@          (r5JDoCalls == old(r5JDoCalls) + 1 && r5JNewReqs == old(r5JNewReqs) + 1 && r5JSent(r5JDoReq, r5JDoAccept, "POST", old(endpoint)) && r5JDoClient == c.c &&
+//@           r5JDoErr == nil && r5JReadErr == nil && r5JReadSrc == r5JDoBody && r5JClosed == r5JDoBody && r5JDoStatus == 403 && !r5JHasPrefix(old(endpoint), "https") && r5JHasPrefix(endpoint, "https") && (exists p int :: {r4CItoa(p)} endpoint == r5JHttpsOf(old(endpoint), p)))
+//@     invariant[nothing-decoded-yet] r5JUnms == old(r5JUnms) && r5JErrfs == old(r5JErrfs)
+//@     invariant[bodies-so-far] r5JReadAlls - old(r5JReadAlls) == r5JDoOKs - old(r5JDoOKs) && r5JCloses - old(r5JCloses) == r5JDoOKs - old(r5JDoOKs) && r5JDoOKs - old(r5JDoOKs) == r5JDoCalls - old(r5JDoCalls)
+//@     invariant[client-kept] c.c == old(c.c)
+//@     invariant[parameters-kept] data == old(data) && v == old(v)
+//@     invariant[no-content-type-without-body] data == nil ==> r5JCTAdds == old(r5JCTAdds)
+//@     invariant[first-body-as-given] r5JDoCalls == old(r5JDoCalls) + 1 ==> r5JPostBody(r5JDoReq, r5JDoCTJson, data)
